@@ -357,6 +357,14 @@ func (r *UnitRun) evalCompositeLit(st *State, e *ast.CompositeLit, addr bool) Va
 	t := r.typeOf(e)
 	tu := types.Unalias(t)
 	w := r.prog.World
+	if p, ok := tu.Underlying().(*types.Pointer); ok {
+		// elided &T{...} inside a composite literal
+		if _, ok := p.Elem().Underlying().(*types.Struct); ok {
+			addr = true
+			t = p.Elem()
+			tu = types.Unalias(t)
+		}
+	}
 	switch u := tu.Underlying().(type) {
 	case *types.Slice:
 		es := w.sortOf(u.Elem())
